@@ -81,6 +81,110 @@ theorem F_congr_X (M : Scm) (G : MG Name) {X X' : List Name} (h : ∀ v, v ∈ X
     simp only [h x]
   rw [e1, e2]
 
+/-- the variable activation with `zs` turns a plain variable into -/
+def TrsoAux.src_act (zs : List Name) (v : Var) : Var :=
+  { name := v.name, star := none, isIv := false, ivs := actWorld zs }
+
+theorem TrsoAux.src_actKeep_plain (zs : List Name) {v : Var} (hv : v.ivs = [] ∧ v.star = none ∧ v.isIv = false) :
+    actKeep zs v = decide (v.name ∉ zs) := by
+  obtain ⟨h1, h2, h3⟩ := hv
+  have e : ∀ z, Var.plain z = v ↔ z = v.name := by
+    intro z
+    cases v
+    simp_all [Var.plain]
+  unfold actKeep
+  rw [Bool.eq_iff_iff]
+  simp only [Bool.not_eq_true', List.any_eq_false, decide_eq_true_eq, e]
+  constructor
+  · intro h hn; exact h _ hn rfl
+  · intro h z hz hzv; exact h (hzv ▸ hz)
+
+theorem TrsoAux.src_mem_act (zs : List Name) {l : List Var} (hl : ∀ v ∈ l, v.ivs = [] ∧ v.star = none ∧ v.isIv = false)
+    (n : Name) :
+    n ∈ vnames ((sortVars (l.filter (actKeep zs))).map (TrsoAux.src_act zs)) ↔ n ∈ (vnames l).filter (· ∉ zs) := by
+  simp only [vnames, List.map_map, List.mem_map, mem_sortVars, List.mem_filter, Function.comp, TrsoAux.src_act,
+    decide_eq_true_eq]
+  constructor
+  · rintro ⟨v, ⟨hv, hk⟩, rfl⟩
+    rw [TrsoAux.src_actKeep_plain zs (hl v hv), decide_eq_true_eq] at hk
+    exact ⟨⟨v, hv, rfl⟩, hk⟩
+  · rintro ⟨⟨v, hv, rfl⟩, hk⟩
+    refine ⟨v, ⟨hv, ?_⟩, rfl⟩
+    rw [TrsoAux.src_actKeep_plain zs (hl v hv), decide_eq_true_eq]
+    exact hk
+
+theorem TrsoAux.src_leaf_eq (Fam : Family) (G : MG Name) (pops : List Name) (σ' : Val) (h : FamOK Fam G pops) (d : Pop)
+    (hd : d ∈ pops) (zs : List Name) (hz : zs ≠ []) (pop : Option Var) (c p : List Var)
+    (hv : ∀ v ∈ c ++ p, v.ivs = [] ∧ v.star = none ∧ v.isIv = false ∧ v.name ∈ G.nodes) (σ : Val) :
+    leafAct zs d (envLeaf Fam.env σ') pop c p σ =
+      F (Fam.dom (some d)) G ((actWorld zs).map (·.name)) ((vnames (c ++ p)).filter (· ∉ zs)) σ /
+        F (Fam.dom (some d)) G ((actWorld zs).map (·.name)) ((vnames p).filter (· ∉ zs)) σ := by
+  have hpl : ∀ v ∈ c ++ p, v.ivs = [] ∧ v.star = none ∧ v.isIv = false := fun v hv' =>
+    ⟨(hv v hv').1, (hv v hv').2.1, (hv v hv').2.2.1⟩
+  have hplc : ∀ v ∈ c, v.ivs = [] ∧ v.star = none ∧ v.isIv = false := fun v hv' =>
+    hpl v (List.mem_append_left _ hv')
+  have hplp : ∀ v ∈ p, v.ivs = [] ∧ v.star = none ∧ v.isIv = false := fun v hv' =>
+    hpl v (List.mem_append_right _ hv')
+  have hM := h.compat d hd
+  cases hE : (c.filter (actKeep zs)).isEmpty with
+  | true =>
+    have hnil : c.filter (actKeep zs) = [] := List.isEmpty_iff.1 hE
+    have hmem : ∀ n, n ∈ (vnames (c ++ p)).filter (· ∉ zs) ↔ n ∈ (vnames p).filter (· ∉ zs) := by
+      intro n
+      simp only [vnames, List.map_append, List.filter_append, List.mem_append]
+      constructor
+      · rintro (hn | hn)
+        · exfalso
+          obtain ⟨hn1, hn2⟩ := List.mem_filter.1 hn
+          obtain ⟨v, hvc, rfl⟩ := List.mem_map.1 hn1
+          have : v ∈ c.filter (actKeep zs) := by
+            rw [List.mem_filter, TrsoAux.src_actKeep_plain zs (hplc v hvc)]
+            exact ⟨hvc, hn2⟩
+          rw [hnil] at this
+          cases this
+        · exact hn
+      · exact Or.inr
+    rw [F_congr _ hmem]
+    simp only [leafAct, hE, if_true]
+    exact (div_self (ne_of_gt (F_pos hM _ _ σ))).symm
+  | false =>
+    have h1 : ∀ l : List Var, (∀ v ∈ l, v.ivs = [] ∧ v.star = none ∧ v.isIv = false) →
+        interveneVars (zs.map Var.plain) (sortVars (l.filter (actKeep zs))) =
+          .ok ((sortVars (l.filter (actKeep zs))).map (TrsoAux.src_act zs)) := by
+      intro l hl
+      exact interveneVars_plain hz (fun v hv' => hl v (List.mem_filter.1 ((mem_sortVars _ _).1 hv')).1)
+    simp only [leafAct, hE, Bool.false_eq_true, if_false, h1 c hplc, h1 p hplp]
+    have hadm : ∀ v ∈ (sortVars (c.filter (actKeep zs))).map (TrsoAux.src_act zs) ++
+        (sortVars (p.filter (actKeep zs))).map (TrsoAux.src_act zs),
+        v.ivs = actWorld zs ∧ v.star = none ∧ v.isIv = false ∧
+          (v.name ∈ G.nodes ∧ v.name ∉ (actWorld zs).map (·.name)) := by
+      intro v hv'
+      have : ∃ u, u ∈ (c ++ p).filter (actKeep zs) ∧ TrsoAux.src_act zs u = v := by
+        rw [List.filter_append]
+        rcases List.mem_append.1 hv' with hv' | hv'
+        · obtain ⟨u, hu, rfl⟩ := List.mem_map.1 hv'
+          exact ⟨u, List.mem_append_left _ ((mem_sortVars _ _).1 hu), rfl⟩
+        · obtain ⟨u, hu, rfl⟩ := List.mem_map.1 hv'
+          exact ⟨u, List.mem_append_right _ ((mem_sortVars _ _).1 hu), rfl⟩
+      obtain ⟨u, hu, rfl⟩ := this
+      obtain ⟨hu1, hu2⟩ := List.mem_filter.1 hu
+      rw [TrsoAux.src_actKeep_plain zs (hpl u hu1), decide_eq_true_eq] at hu2
+      refine ⟨rfl, rfl, rfl, (hv u hu1).2.2.2, ?_⟩
+      rw [mem_actWorld_names]
+      exact hu2
+    have hle := (famLeafSem Fam G pops σ' h).leaf_eq (some (popVar d)) (actWorld zs) _ _
+      ⟨⟨popVar d, rfl, hd⟩, actWorld_unstarred zs⟩ hadm σ
+    rw [hle]
+    show F (Fam.dom (some d)) G ((actWorld zs).map (·.name)) _ σ / F (Fam.dom (some d)) G ((actWorld zs).map (·.name)) _ σ = _
+    have e1 : ∀ n, n ∈ vnames ((sortVars (c.filter (actKeep zs))).map (TrsoAux.src_act zs) ++
+        (sortVars (p.filter (actKeep zs))).map (TrsoAux.src_act zs)) ↔ n ∈ (vnames (c ++ p)).filter (· ∉ zs) := by
+      intro n
+      have a := TrsoAux.src_mem_act zs hplc n
+      have b := TrsoAux.src_mem_act zs hplp n
+      simp only [vnames, List.map_append, List.filter_append, List.mem_append] at a b ⊢
+      rw [a, b]
+    rw [F_congr _ e1, F_congr _ (TrsoAux.src_mem_act zs hplp)]
+
 /-- **the activated reading of the leaves satisfies the leaf laws**: every leaf over plain variables that are nodes is
 admissible; names in `zs` may occur in a leaf but may not be summed (`U`) -/
 def srcLeafSem (Fam : Family) (G : MG Name) (pops : List Name) (σ' : Val) (h : FamOK Fam G pops) (d : Pop)
@@ -92,13 +196,19 @@ def srcLeafSem (Fam : Family) (G : MG Name) (pops : List Name) (σ' : Val) (h : 
   Φ _ _ E := F (Fam.dom (some d)) G ((actWorld zs).map (·.name)) (E.filter (· ∉ zs))
   card_pos := (h.compat d hd).card_pos
   leaf_eq := by
-    sorry
+    rintro pop w c p rfl hv σ
+    exact TrsoAux.src_leaf_eq Fam G pops σ' h d hd zs hz pop c p hv σ
   nil := by
-    sorry
+    intro pop w _ σ
+    exact F_nil (h.compat d hd) h.wf h.rank _ σ
   congr := by
-    sorry
+    intro pop w E E' hE
+    apply F_congr
+    intro v
+    simp only [List.mem_filter, hE v]
   pos := by
-    sorry
+    intro pop w E _ σ
+    exact F_pos (h.compat d hd) _ _ σ
   marg := by
     sorry
 
